@@ -71,16 +71,21 @@ func vfC12Node(router string) (*vfWorld, *vfNode, *vfMetaStore) {
 		pm := &partialmessages.PartialMessagesExtension[struct{}]{Logger: quiet,
 			OnIncomingRPC: func(peer.ID, map[peer.ID]struct{}, *pb.PartialMessagesExtension) error { return nil },
 			OnEmitGossip:  func(string, []byte, []peer.ID, map[peer.ID]struct{}) {}}
-		opts = append(opts, WithGossipSubParams(params), WithPeerExchange(true), WithPeerScore(sp, vfThresholds("std")), WithPeerGater(gp))
+		opts = append(opts, WithGossipSubParams(params))
 		if router == "gossip" {
-			// "gossip-plain" is the default node: no extension configured, whatever the peer claims to support
-			opts = append(opts, WithTestExtension(TestExtensionConfig{}), WithPartialMessagesExtension(pm))
+			// "gossip-plain" is the default node: no scoring (so peer exchange is taken from anybody), no gater, no
+			// extension configured, whatever the peer claims to support
+			opts = append(opts, WithPeerExchange(true), WithPeerScore(sp, vfThresholds("std")), WithPeerGater(gp), WithTestExtension(TestExtensionConfig{}), WithPartialMessagesExtension(pm))
 		}
 	}
 	n, err := vfNewNode(w, "N", strings.TrimSuffix(router, "-plain"), opts...)
 	if err != nil {
 		panic(err)
 	}
+	// addresses handed to the node lead nowhere: a dial hangs until the dialer's own deadline
+	n.h.hmu.Lock()
+	n.h.slowDial = true
+	n.h.hmu.Unlock()
 	return w, n, meta
 }
 
@@ -293,6 +298,19 @@ func vfB(v []byte, absent bool) []byte {
 
 func vfC12RPCInputs(self, attacker peer.ID, maxDev int) []vfC12Input {
 	var out []vfC12Input
+	// peer-exchange floods: more candidates than the connector queue holds, none of them reachable
+	for _, nPrunes := range []int{1, 2} {
+		t := "t"
+		ctl := &pb.ControlMessage{}
+		for k := 0; k < nPrunes; k++ {
+			pr := &pb.ControlPrune{TopicID: &t}
+			for i := 0; i < 16; i++ {
+				pr.Peers = append(pr.Peers, &pb.PeerInfo{PeerID: []byte(fmt.Sprintf("\x00\x24\x08\x01\x12\x20px-candidate-%02d-%02d-0123456789abc", k, i))})
+			}
+			ctl.Prune = append(ctl.Prune, pr)
+		}
+		out = append(out, vfC12Input{desc: fmt.Sprintf("px-flood %d prune(s) x 16 candidates", nPrunes), chunks: [][]byte{vfFrame(vfCtlRPC(ctl))}, setup: true, stepwise: true})
+	}
 	vals := vfC12Values(self, attacker)
 	vnames := vfSortedKeys(vals)
 	vnames = append([]string{"<absent>"}, vnames...)
